@@ -23,12 +23,8 @@ def big_runs(tier):
 def run(res):
     rng = random.Random(res.seed)
     thorough = res.tier == "thorough"
-    import importlib
-    try:
-        th = importlib.import_module("props.theorems").THEOREMS.get("C01", [])
-    except Exception:
-        th = []
-    prove_obligations(res, th)
+    from props.theorems import THEOREMS
+    prove_obligations(res, THEOREMS.get("C01", []))
     cases = corpus_cases() + c01_cases(rng, 60000 if thorough else 2500, max_n=300)
     # a few long chunks (oracle + writer/reader correspondence)
     cases += c01_cases(rng, 40 if thorough else 6, max_n=20000, shapes=["sparse", "uniform", "lattice", "poly", "clusters"])
